@@ -97,6 +97,18 @@ def run(ctx):
                 hx = "".join("%08x" % c for c in cps)
                 lines.append("F0=%d,0,f;S0=0,-1,-1,0,32,0,-1,%s;R0;D0;d0;X0;L0" % (fi, hx))
                 meta.append(("loop", "shape %s text=%s" % (desc["model"], hx)))
+        # (c2) rules that move the cursor around the high-water mark and return long jumps, on long runs: the loop report
+        # must stay within the bound; model compared as well
+        corpus = [(3, -120, 1, 125, 500), (2, -100, 2, 130, 400), (4, -60, 1, 70, 300)]     # (match length, jump, maxRuleLoop, a's, c's)
+        for k in range(60 if q else 1500):
+            fixed = corpus[k] if k < len(corpus) else None
+            data, desc = fontsynth.gen_jump_font(r, fixed=True, ln=fixed[0], ret=fixed[1], ml=fixed[2]) if fixed else fontsynth.gen_jump_font(r)
+            fi = add_font(data)
+            for _ in range(2):
+                cps = [0x61] * fixed[3] + [0x62] + [0x63] * fixed[4] if fixed else fontsynth.gen_jump_text(r, long=not q)
+                hx = "".join("%08x" % c for c in cps)
+                lines.append("F0=%d,0,f;S0=0,-1,-1,0,32,0,-1,%s;R0;D0;d0;X0;L0" % (fi, hx))
+                meta.append(("loop", "shape %s text=%s" % (desc["model"], hx)))
         # (d) boundary fonts: an operand one past the end of its table; the loader must refuse, otherwise shaping must still be safe
         for _ in range(40 if q else 1000):
             data, desc = fontsynth.gen_boundary_font(r)
@@ -133,7 +145,7 @@ def run(ctx):
                 res.failures.append({"harness": "h_seg", "mode": "safety", "line": l, "impl": o[:500], "model": None, "why": why, "what": m[1] if kind == "mutated" else m[0],
                                      "font_hex": open(fonts[fi], "rb").read().hex() if os.path.getsize(fonts[fi]) < 400000 else None, "font_from": m[0]})
                 continue
-            if kind == "loop" and k in lmodel:
+            if kind == "loop" and k in lmodel and accepted:
                 iloop, _, ibody = o.partition(" | ") if o.startswith("loop=") else ("", "", o)
                 pi = heapcheck.proj_dump(ibody.split(" | ")[0])
                 mm = re.match(r"trie=(\S*) (loop=\S+ passes=\S+ exceeded=\S+ )?(.*)", lmodel[k])
